@@ -5,7 +5,7 @@ from __future__ import annotations
 import random
 from fractions import Fraction
 
-LABELS = [None, None, "", "step", "fill up", "dilute 1:10", "first", "last", "mix  ", "line1\nline2", "µL transfer", "a;b"]
+LABELS = [None, None, "", "step", "fill up", "dilute 1:10", "first", "last", "mix  ", "add 10% glycerol", "line1\nline2", "µL transfer", "a;b"]
 LIQ = ["", "Water", "Water_FD_AspZmax-1", "DMSO free"]
 
 
@@ -104,7 +104,7 @@ class Shadow:
 def gen_labware(rng, n=None, big=False):
     n = n or rng.choice([1, 2, 2, 3, 3, 4])
     specs = []
-    names = rng.sample(["plate", "MTP", "stocks", "water", "DWP-2", "src", "dst", "Tubes 1", "µ-plate", "buffer"], n)
+    names = rng.sample(["plate", "MTP", "stocks", "water", "DWP-2", "src", "dst", "Tubes 1", "µ-plate", "buffer", "glc_40%"], n)
     for i in range(n):
         kind = rng.choice(["plate", "plate", "trough"])
         if i == 0 and n > 1:
@@ -154,6 +154,18 @@ def gen_labware(rng, n=None, big=False):
                 sh = Shadow([spec])
                 spec["column_names"] = [rng.choice(["water", "stock", None]) if sh.v[0][c] > 0 else None for c in range(cols)]
         specs.append(spec)
+    # two labware built from one and the same float array object (the runner passes the identical ndarray)
+    if n >= 2 and rng.random() < 0.15:
+        a, b = rng.sample(range(n), 2)
+        src = specs[a]
+        if src.get("init") is not None and src["init"]["shape"] != "scalar":
+            twin = dict(src)
+            twin["name"] = specs[b]["name"]
+            twin["share_init_with"] = a
+            twin.pop("names", None)
+            twin.pop("column_names", None)
+            if b > a:
+                specs[b] = twin
     return specs
 
 
@@ -427,7 +439,44 @@ def troughs(specs):
     return [k for k, s in enumerate(specs) if s["kind"] == "trough"]
 
 
+def gen_drain_program(rng):
+    """wells are emptied exactly (min_volume 0) and refilled with a different liquid, then used as a source"""
+    rows, cols = rng.choice([(2, 3), (3, 2), (4, 2)])
+    vols = [[fs(rng.choice([40, 60, 100, 125])) for _ in range(cols)] for _ in range(rows)]
+    plate = {"kind": "plate", "name": rng.choice(["plate", "µ-plate", "DWP-2"]), "rows": rows, "cols": cols, "min": "0", "max": "1000",
+             "init": {"shape": "2d", "v": vols}}
+    tr = {"kind": "trough", "name": rng.choice(["water", "buffer"]), "vrows": rng.choice([2, 4]), "cols": 2, "min": "0", "max": "5000",
+          "init": {"shape": "list", "v": ["300", "2000"]}}
+    specs = [plate, tr]
+    wl = {"max_volume": rng.choice(["950", "50", "200", "25/2"]), "max_int": False, "auto_split": True, "diti_mode": rng.random() < 0.2}
+    sh = Shadow(specs)
+    ws = sh.wells(0)
+    a, b, c, d = rng.sample(ws, 4)
+    ops = []
+
+    def tr_op(src, sw, dst, dw, v, lab):
+        return {"op": "transfer", "src": src, "swells": {"shape": "list", "v": [sw]}, "dst": dst, "dwells": {"shape": "list", "v": [dw]},
+                "vols": {"shape": "list", "v": [fs(v)]}, "label": lab, "ws": rng.choice([1, "flush", "reuse"])}
+    va = sh.vol(0, a)
+    ops.append(tr_op(0, a, 0, b, va, "drain"))            # a is now exactly empty
+    sh.remove(0, [a], [va]); sh.add(0, [b], [va])
+    if rng.random() < 0.5:
+        ops.append(tr_op(0, c, 0, a, Fraction(30), "refill"))
+        sh.remove(0, [c], [Fraction(30)]); sh.add(0, [a], [Fraction(30)])
+    else:
+        ops.append(tr_op(1, "A01", 0, a, Fraction(75), "refill from trough"))
+        sh.remove(1, ["A01"], [Fraction(75)]); sh.add(0, [a], [Fraction(75)])
+    ops.append(tr_op(0, a, 0, d, Fraction(10), "pass on"))
+    if rng.random() < 0.5:
+        # use up a whole trough column by distribute, then refill it and distribute again
+        ops.append({"op": "distribute", "src": 1, "col": 0, "dst": 0, "dwells": {"shape": "list", "v": [b, d][: rng.choice([1, 2])]},
+                    "volume": fs(sh.vol(1, "A01") / rng.choice([1, 1])) if False else "25", "label": "dist"})
+    return {"dev": "evo", "wl": wl, "labware": specs, "ops": ops, "family": "drain"}
+
+
 def gen_program(rng, family, nops=None):
+    if family == "drain":
+        return gen_drain_program(rng)
     specs = gen_labware(rng, big=(family == "big"))
     wl = gen_wl(rng)
     sh = Shadow(specs)
@@ -507,9 +556,12 @@ def make_fault(rng, op, specs, sh, wl):
         op["pb"] = rng.choice(["sources", "column", ""])
         return op
     if k == "transfer" and r < 0.65:
-        # incompatible lengths
-        op["vols"] = {"shape": "list", "v": ["1", "2", "3", "4", "5", "6", "7", "8", "9"][: rng.choice([2, 5, 9])]}
-        op["swells"] = {"shape": "list", "v": sh.wells(op["src"])[:3] or ["A01"]}
+        # incompatible lengths in every pattern (a, a, b), (a, b, b), (a, b, a), (a, b, c); none of them 1
+        pat = rng.choice([(3, 3, 2), (2, 3, 3), (3, 2, 3), (2, 3, 4), (4, 4, 3), (2, 2, 3)])
+        sw, dw = sh.wells(op["src"]), sh.wells(op["dst"])
+        op["swells"] = {"shape": "list", "v": [sw[j % len(sw)] for j in range(pat[0])]}
+        op["dwells"] = {"shape": "list", "v": [dw[j % len(dw)] for j in range(pat[1])]}
+        op["vols"] = {"shape": "list", "v": ["1", "2", "1/2", "3"][: pat[2]]}
         return op
     if k == "transfer" and r < 0.75:
         a = op["vols"]
